@@ -68,6 +68,7 @@ pub struct Oracle {
     avk_cache: BTreeMap<u64, Option<String>>,
     restarts_checked: usize,
     sig_cache: BTreeMap<(String, String, String), Option<Vec<u64>>>,
+    probed: BTreeSet<Entity>,
 }
 
 impl Oracle {
@@ -85,6 +86,7 @@ impl Oracle {
             avk_cache: BTreeMap::new(),
             restarts_checked: 0,
             sig_cache: BTreeMap::new(),
+            probed: BTreeSet::new(),
         }
     }
 
@@ -237,6 +239,24 @@ impl Oracle {
             }
             if self.is("C06") {
                 self.check_avk_c06(w, c, step);
+            }
+            if self.is("C02")
+                && let Some(entity) = c.entity.clone()
+            {
+                self.clerk_probe_c02(w, &entity, step);
+            }
+        }
+        // C02: probe also rounds that close without a certificate (expired / superseded)
+        if self.is("C02") {
+            let closed_now: Vec<Entity> = self
+                .open_messages
+                .iter()
+                .filter(|(_, v)| v.2)
+                .map(|(_, v)| v.0.clone())
+                .filter(|e| !self.probed.contains(e))
+                .collect();
+            for e in closed_now {
+                self.clerk_probe_c02(w, &e, step);
             }
         }
         // C14-5 / C15-b: an entity certified twice, two artifacts for one entity
@@ -444,6 +464,121 @@ impl Oracle {
         };
         self.sig_cache.insert(key, r.clone());
         r
+    }
+
+    // ---------------------------------------------------------------- C02
+
+    /// Clerk probe: everything the network delivered for this round (every copy, every damaged
+    /// body that still decodes, signatures for other messages), in delivery order, handed as it
+    /// stands to the real aggregation entry point built from the same closed registration —
+    /// for every prefix of the delivery log.
+    fn clerk_probe_c02(&mut self, w: &World, entity: &Entity, step: usize) {
+        use mithril_common::entities::SingleSignature;
+        if !self.probed.insert(entity.clone()) {
+            return;
+        }
+        let Some(message) = self.open_messages.values().find(|x| x.0 == *entity).map(|x| x.1.clone()) else { return };
+        let signers = Self::model_signers(w, entity.signing_epoch(), step);
+        if signers.is_empty() {
+            return;
+        }
+        let Ok(builder) = SignerBuilder::new(&signers, &w.sc.parameters()) else { return };
+        let multi = builder.build_multi_signer();
+        let avk = builder.compute_aggregate_verification_key();
+        let params: mithril_common::crypto_helper::ProtocolParameters = w.sc.parameters().into();
+        // the delivery log of this round (+ what arrived for other messages meanwhile)
+        struct Item {
+            sig: SingleSignature,
+            valid: Option<Vec<u64>>,
+            what: String,
+        }
+        let mut log: Vec<Item> = vec![];
+        let first_step = w.deliveries.iter().find(|d| matches!(&d.msg.kind, MsgKind::Signature { entity: e, .. } if e == entity)).map(|d| d.step).unwrap_or(usize::MAX);
+        for d in &w.deliveries {
+            if d.step < first_step || log.len() >= 18 {
+                continue;
+            }
+            let MsgKind::Signature { entity: de, producer, .. } = &d.msg.kind else { continue };
+            let Ok(v) = serde_json::from_str::<serde_json::Value>(&d.body) else { continue };
+            let (Some(party), Some(sig_hex)) = (v["party_id"].as_str(), v["signature"].as_str()) else { continue };
+            let Ok(psig): Result<ProtocolSingleSignature, _> = sig_hex.to_string().try_into() else { continue };
+            let indexes: Vec<u64> = v["indexes"].as_array().map(|a| a.iter().filter_map(|x| x.as_u64()).collect()).unwrap_or_default();
+            let producer_id = w.parties[*producer].party_id.clone();
+            let valid = if de == entity { self.delivered_valid_indexes(w, &signers, &producer_id, &d.body, &message) } else { None };
+            // completeness: an honest, undamaged signature of a registered signer verifies
+            if de == entity
+                && !d.damaged
+                && valid.is_none()
+                && signers.iter().any(|s| s.party_id == producer_id)
+                && matches!(&d.msg.kind, MsgKind::Signature { producer_recording_epoch, .. } if *producer_recording_epoch + 1 == entity.signing_epoch())
+            {
+                self.report(step, "honest-signature-rejected", format!("a signature produced by registered party {} for {} does not verify under its registered key", short(&producer_id), entity.label()));
+            }
+            log.push(Item {
+                sig: SingleSignature::new(party.to_string(), psig, indexes),
+                valid: valid.map(|i| i.into_iter().filter(|x| *x < w.sc.m).collect()),
+                what: format!("{}{}{}", short(&producer_id), if d.damaged { "~damaged" } else { "" }, if de != entity { "~other-message" } else { "" }),
+            });
+        }
+        if log.is_empty() {
+            return;
+        }
+        self.probe("clerk_probes");
+        let aggregate = |items: &[&Item]| -> Result<bool, String> {
+            let sigs: Vec<SingleSignature> = items.iter().map(|i| i.sig.clone()).collect();
+            let input = mithril_stm::AncillaryProofInput::new(None, mithril_stm::AncillaryGenesisData::new());
+            match multi.aggregate_single_signatures(&sigs, &message, mithril_common::AggregateSignatureType::Concatenation, input) {
+                Ok(res) => Ok(res.multi_signature.verify(message.as_bytes(), &avk, &params, None, None).is_ok()),
+                Err(e) => Err(crate::world::first_line(&format!("{e:#}"))),
+            }
+        };
+        let mut succeeded_at: Option<usize> = None;
+        for p in 1..=log.len() {
+            let items: Vec<&Item> = log[..p].iter().collect();
+            let mut union: BTreeSet<u64> = BTreeSet::new();
+            for i in &items {
+                if let Some(v) = &i.valid {
+                    union.extend(v.iter().copied());
+                }
+            }
+            let res = aggregate(&items);
+            self.probe("clerk_probe_aggregations");
+            let describe = || items.iter().map(|i| i.what.clone()).collect::<Vec<_>>().join(" ");
+            match &res {
+                Ok(true) => {
+                    if succeeded_at.is_none() {
+                        succeeded_at = Some(p);
+                    }
+                }
+                Ok(false) => {
+                    self.report(step, "aggregate-does-not-verify", format!("aggregation over the first {p} deliveries for {} succeeded but its result does not verify [{}]", entity.label(), describe()));
+                }
+                Err(e) => {
+                    if union.len() as u64 >= w.sc.k {
+                        self.report(step, "quorum-but-aggregation-fails", format!(
+                            "the valid signatures among the first {p} deliveries for {} cover {} distinct lottery indexes (k = {}) but aggregation fails: {e} [{}]",
+                            entity.label(), union.len(), w.sc.k, describe()));
+                    }
+                    if let Some(q) = succeeded_at {
+                        self.report(step, "more-material-breaks-aggregation", format!(
+                            "aggregation for {} succeeded over the first {q} deliveries and fails over the first {p}: {e} [{}]", entity.label(), describe()));
+                    }
+                }
+            }
+        }
+        // order independence at the full log (seeded permutation)
+        let mut order: Vec<usize> = (0..log.len()).collect();
+        let mut r = sim_core::Rng::for_run(w.sc.seed, "c02-permutation", w.sc.run * 131 + step as u64);
+        r.shuffle(&mut order);
+        let full: Vec<&Item> = log.iter().collect();
+        let permuted: Vec<&Item> = order.iter().map(|i| &log[*i]).collect();
+        let (a, b) = (aggregate(&full), aggregate(&permuted));
+        if a.is_ok() != b.is_ok() || (a.as_ref().ok() != b.as_ref().ok()) {
+            self.report(step, "order-dependent-aggregation", format!("aggregation for {} gives {:?} in delivery order and {:?} in another order of the same deliveries", entity.label(), a, b));
+        }
+        if log.iter().any(|i| i.what.contains('~')) || log.len() > log.iter().map(|i| i.sig.signature.to_json_hex().unwrap_or_default()).collect::<BTreeSet<_>>().len() {
+            self.probe("clerk_probe_with_extra_material");
+        }
     }
 
     // ---------------------------------------------------------------- C16
